@@ -5,7 +5,7 @@ import itertools
 
 import numpy as np
 
-from mc.util import call, raised
+from mc.util import call, raised, array_args, array_args_unchanged
 from models import blockref as B
 
 ID = "C09"
@@ -83,6 +83,12 @@ def _configs(tier, full, third=True):
 
 
 def cases(tier, seed):
+    """Every fifth case (rotating with the seed) hands region / shape / spacing to BlockReduce as numpy arrays (purity checked)."""
+    for i, c in enumerate(_cases(tier, seed)):
+        yield dict(c, args="ndarray") if (i + seed) % 5 == 0 and not c.get("route") else c
+
+
+def _cases(tier, seed):
     layouts = [(2, 2)] if tier == "quick" else [(2, 2), (3, 2)]
     nmax = 3 if tier == "quick" else 4
     for nbx, nby in layouts:
@@ -224,11 +230,18 @@ def run(case, rec):
     elif route == "clone":
         from sklearn.base import clone
         reducer = call(rec, lambda: clone(vd.BlockReduce(red, **kw)))
+    elif case.get("args") == "ndarray":
+        kw_a, snap_a = array_args(kw)
+        if np.isscalar(kw_a.get("spacing")):
+            kw_a["spacing"] = np.float64(kw_a["spacing"])
+        reducer = call(rec, vd.BlockReduce, red, **kw_a)
     else:
         reducer = call(rec, vd.BlockReduce, red, **kw)
     if raised(reducer):
         return rec.check(False, "BlockReduce() raised %r" % (reducer,))
     got = call(rec, reducer.filter, coords, d_arg, w_arg)
+    if case.get("args") == "ndarray" and not raised(reducer):
+        rec.check(array_args_unchanged(kw_a, snap_a), "BlockReduce.filter modified a parameter array: %r" % ({k: kw_a[k].tolist() for k in snap_a},))
     if raised(got):
         return rec.check(False, "BlockReduce.filter raised %r" % (got,))
     after = [a.tobytes() for a in (e, n, extra)] + [d.tobytes() for d in data] + ([w.tobytes() for w in wts] if wts else [])
